@@ -501,12 +501,38 @@ func vPerfect(parent *Node[int, int], h int, seq *[]*Node[int, int]) *Node[int, 
 	return n
 }
 
-// VHDeep: Keys/Values/full iteration on the perfect tree of height H (2^H - 1 nodes), symbolic keys and values.
+// vFibTree is the SPARSEST AVL tree of height h (every node leans to the same side: Fibonacci tree, the deepest tree
+// for its size - height ~1.44*log2(n)); side 0 leans left, 1 leans right.
+func vFibTree(parent *Node[int, int], h int, side int, seq *[]*Node[int, int]) *Node[int, int] {
+	if h == 0 {
+		return nil
+	}
+	n := &Node[int, int]{Parent: parent}
+	hl, hr := h-1, h-2
+	if side == 1 {
+		hl, hr = h-2, h-1
+	}
+	if h == 1 {
+		hl, hr = 0, 0
+	}
+	n.b = int8(hr - hl)
+	n.Children[0] = vFibTree(n, hl, side, seq)
+	*seq = append(*seq, n)
+	n.Children[1] = vFibTree(n, hr, side, seq)
+	return n
+}
+
+// VHDeep: Keys/Values/full iteration on the perfect tree of height H (2^H - 1 nodes) or, with shape=1/2, on the
+// sparsest (Fibonacci) AVL tree of height H leaning left/right; symbolic keys and values.
 func VHDeep() {
 	H := v.Cfg("H")
 	var seq []*Node[int, int]
 	t := &Tree[int, int]{Comparator: vl.Cmp}
-	t.Root = vPerfect(nil, H, &seq)
+	if sh := v.CfgOr("shape", 0); sh > 0 {
+		t.Root = vFibTree(nil, H, sh-1, &seq)
+	} else {
+		t.Root = vPerfect(nil, H, &seq)
+	}
 	t.size = len(seq)
 	ek, ev := vDeepKeys(len(seq))
 	for i, n := range seq {
